@@ -40,6 +40,17 @@ def run_cut(ms, k, cuts, how):
                 b.shutdown(socket.SHUT_RDWR)
             b.close()
             try:
+                # the program may take the first of what is there with poll() / receive(), or leave a loop over the port early,
+                # before it iterates to the end: everything that arrived completely is still handed out, once, in order
+                early = (k + 3 * len(cuts)) % 4
+                if early == 1:
+                    m = port.poll()
+                    if m is not None:
+                        got.append(m)
+                elif early == 2:
+                    for m in port:
+                        got.append(m)
+                        break
                 for m in port:
                     got.append(m)
                 end = 'normal'
